@@ -537,7 +537,7 @@ pub fn check_def() -> PropertyCheck {
   PropertyCheck {
     id: "C14",
     scenarios: vec![Box::new(C14Des), Box::new(C14Threads)],
-    runs: (120_000, 16_000_000),
+    runs: (300_000, 16_000_000),
     rule: "DES case = target (to_future, to_stream, collect.to_future, complete_status) x flavour x script of next/error/complete/poll incl. events after the terminal; thread case = waiter (wait_for_end | parked to_future | parked to_stream) vs producer (0-2 items then complete/error) under a seeded schedule over lock points and the StatusFuture check/register window; non-trivial = a poll returned Pending before the terminal, an event followed the terminal, the source failed (DES) / a decision had >1 eligible thread (threads)",
     assumptions: vec![
       "futures' mpsc channel and AtomicWaker operations are atomic simulator steps (only one simulated thread runs at a time)",
